@@ -346,5 +346,82 @@ func (s *Sess) WriteWhileReadPending(n int, rec []byte, chunks [][]byte, fin str
 	return wr, rd
 }
 
+// WriteAnsweredDuring is the other proxy interleaving: a Read is pending, the backend's record is
+// written, and the client answers it as soon as the bytes reach it - while Conn.Write has not yet
+// returned on the writer's goroutine. What the client saw (the record) came first, so linearised
+// this is again "write, feed, read".
+func (s *Sess) WriteAnsweredDuring(n int, rec []byte, chunks [][]byte, fin string) (IORes, IORes) {
+	s.Fake.SetBlock(true)
+	var rd IORes
+	buf := make([]byte, n)
+	done := make(chan struct{})
+	go func() {
+		defer close(done)
+		defer func() {
+			if r := recover(); r != nil {
+				rd.Err = "panic"
+				rd.Panic = fmt.Sprint(r)
+			}
+		}()
+		k, err := s.Conn.Read(buf)
+		rd.N = k
+		rd.Data = buf[:k]
+		rd.Err = ErrClass(err)
+	}()
+	for i := 0; i < 20000 && s.Fake.WaitingReaders() == 0; i++ {
+		select {
+		case <-done:
+			i = 20000
+		default:
+			time.Sleep(50 * time.Microsecond)
+		}
+	}
+	mark := -1
+	s.Fake.OnWrite = func(total int) {
+		mark = total
+		s.Fake.Append(chunks, fin)
+		select {
+		case <-done:
+		case <-time.After(200 * time.Millisecond):
+		}
+	}
+	var wr IORes
+	func() {
+		defer func() {
+			if r := recover(); r != nil {
+				wr.Err = "panic"
+				wr.Panic = fmt.Sprint(r)
+			}
+		}()
+		k, err := s.Conn.Write(append([]byte{}, rec...))
+		wr.N = k
+		wr.Err = ErrClass(err)
+	}()
+	if mark < 0 { // nothing was written to the client: feed now
+		s.Fake.OnWrite = nil
+		s.Fake.Append(chunks, fin)
+		mark = len(s.Fake.Out)
+	}
+	<-done
+	all := append([]byte{}, s.Fake.Out[s.seen:]...)
+	cut := min(max(mark-s.seen, 0), len(all))
+	wr.Out, rd.Out = all[:cut], all[cut:]
+	s.seen = len(s.Fake.Out)
+	wr.Closed = false
+	rd.Closed = s.Fake.Closed
+	want := fmt.Sprintf("n=%d err=%s out=%s closed=%d", wr.N, wr.Err, core.Hex(wr.Out), b01(wr.Closed))
+	if wr.Err == "panic" {
+		want = "panic " + wr.Panic
+	}
+	s.m("write "+core.Hex(rec), want, "Conn.Write (the client answers while it is still in progress)")
+	s.m(fmt.Sprintf("feed %s %s", chunksStr(chunks), fin), "ok", "")
+	want = fmt.Sprintf("data=%s err=%s out=%s closed=%d", core.Hex(rd.Data), rd.Err, core.Hex(rd.Out), b01(rd.Closed))
+	if rd.Err == "panic" {
+		want = "panic " + rd.Panic
+	}
+	s.m(fmt.Sprintf("read %d", n), want, "Conn.Read of the client's answer, concurrent with the Write that provoked it")
+	return wr, rd
+}
+
 // Sig helper
 func Short(s string) string { return strings.SplitN(s, " ", 2)[0] }
